@@ -464,13 +464,15 @@ def run_pipeline(
 
                 # Fix the data type of the 'image' container to match the detector's image dtype.
                 # See #652
-                image_dtype: np.dtype = buckets_data_tree["image"].dtype
-                exp_dtype: np.dtype = detector.image.dtype
+                # Nothing to fix when no model has initialized the 'image' container
+                if detector.image._array is not None:
+                    image_dtype: np.dtype = buckets_data_tree["image"].dtype
+                    exp_dtype: np.dtype = detector.image.dtype
 
-                if image_dtype != exp_dtype:
-                    buckets_data_tree["image"] = buckets_data_tree["image"].astype(
-                        dtype=exp_dtype
-                    )
+                    if image_dtype != exp_dtype:
+                        buckets_data_tree["image"] = buckets_data_tree["image"].astype(
+                            dtype=exp_dtype
+                        )
 
             # Update the progress bar after each step.
             if progressbar:
